@@ -207,7 +207,34 @@ def templated_schema(draw):
     'twice'  - a rule with several definitions of different shape (literal / constrained temporary or named pattern) that a
                signer rule refers to two or three times in one name."""
     lits = ['a', 'b', 'c']
-    if draw(st.booleans()):
+    fam = draw(st.sampled_from(['shift', 'twice', 'alias']))
+    if fam == 'alias':
+        # 'alias' - a rule with several chains (constraint alternatives or a reference to a multi-definition rule) and a signer;
+        #           another rule whose name pattern + constraints equal ONE of those chains, with another signer
+        pat = draw(st.sampled_from(['x', '_t']))
+        alts = draw(st.lists(st.sampled_from(lits), min_size=2, max_size=3, unique=True))
+        dup = draw(st.sampled_from(alts))
+        if draw(st.booleans()):
+            first = {'id': '#r0', 'name': [{'lit': 'K'}, {'pat': pat}], 'cons': [[{'pat': pat, 'opts': [{'lit': a_}]}] for a_ in alts],
+                     'sign': ['#r2']}
+            second = {'id': '#r1', 'name': [{'lit': 'K'}, {'pat': pat}], 'cons': [[{'pat': pat, 'opts': [{'lit': dup}]}]], 'sign': ['#r3']}
+            pre = []
+        else:
+            pre = [{'id': '#KEY', 'name': [{'lit': a_}], 'cons': [], 'sign': []} for a_ in alts]
+            first = {'id': '#r0', 'name': [{'lit': 'K'}, {'ref': '#KEY'}], 'cons': [], 'sign': ['#r2']}
+            second = {'id': '#r1', 'name': [{'lit': 'K'}, {'lit': dup}], 'cons': [], 'sign': ['#r3']}
+        keys = [{'id': '#r2', 'name': [{'lit': 'a'}, {'pat': '_'}], 'cons': [], 'sign': []},
+                {'id': '#r3', 'name': [{'lit': 'b'}, {'pat': '_'}], 'cons': [], 'sign': []}]
+        if pre and draw(st.booleans()):
+            # the second signer is itself signed by ANOTHER end node of the first rule (still acyclic)
+            other = next(a_ for a_ in alts if a_ != dup)
+            keys[1]['sign'] = ['#r4']
+            keys.append({'id': '#r4', 'name': [{'lit': 'K'}, {'lit': other}], 'cons': [], 'sign': []})
+        mid = [first, second] if draw(st.booleans()) else [second, first]
+        if mid[0] is second:
+            first['id'], second['id'] = '#r1', '#r0'
+        return {'rules': pre + mid + keys}
+    if fam == 'shift':
         w = draw(st.integers(2, 3))
         p1 = draw(st.integers(0, w - 1))
         p2 = draw(st.integers(0, w - 1).filter(lambda v: v != p1))
